@@ -6,6 +6,8 @@ package main
 // one shared cache as run.go wires it, and (mode fault) the real proxy in front.
 
 import (
+	"crypto/md5"
+	"encoding/hex"
 	"context"
 	"crypto/ecdsa"
 	"crypto/elliptic"
@@ -166,6 +168,8 @@ func (s *dohServer) handler(w http.ResponseWriter, r *http.Request) {
 	w.Header().Set("Content-Type", "application/dns-message")
 	fl, _ := w.(http.Flusher)
 	switch sc.kind {
+	case "auto": // the answer is a function of the question bytes alone (e2e mode)
+		_, _ = w.Write(autoAnswer(body))
 	case "ok":
 		_, _ = w.Write(sc.body)
 	case "status":
@@ -488,6 +492,8 @@ func resolverEngine(args []string) error {
 	}
 	r := newRng(c.seed)
 	switch c.mode {
+	case "e2e":
+		return resolverE2E(r, c.n, certDir)
 	case "hist":
 		return resolverHist(r, c.n, certDir)
 	case "fault":
@@ -667,6 +673,143 @@ func resolverHist(r *rng, n int, certDir string) error {
 	return nil
 }
 
+// ---------- mode e2e: real proxy + real resolver (DoH over TLS, response cache on), concurrent clients ----------
+// autoAnswer: id and question echoed, one answer record (TTL 600) whose rdata is derived from the question bytes
+func autoAnswer(q []byte) []byte {
+	if len(q) < 17 {
+		return q
+	}
+	off := 12
+	for off < len(q) && q[off] != 0 {
+		off += 1 + int(q[off])
+	}
+	off += 5
+	if off > len(q) {
+		return q
+	}
+	b := append([]byte{}, q[:off]...)
+	b[2], b[3] = 0x81, 0x80
+	b[4], b[5], b[6], b[7], b[8], b[9], b[10], b[11] = 0, 1, 0, 1, 0, 0, 0, 0
+	sum := md5.Sum(q[12:off])
+	typ := q[off-4 : off-2]
+	rd := sum[:4]
+	if typ[1] == 16 {
+		rd = append([]byte{8}, []byte(hex.EncodeToString(sum[:4]))...)
+	}
+	b = append(b, 0xc0, 12, typ[0], typ[1], 0, 1, 0, 0, 2, 0x58, byte(len(rd)>>8), byte(len(rd)))
+	return append(b, rd...)
+}
+
+func resolverE2E(r *rng, n int, certDir string) error {
+	w, err := newRWorld(certDir, true, 0, 0)
+	if err != nil {
+		return err
+	}
+	defer w.close()
+	if err := w.setTransport(false, false); err != nil {
+		return err
+	}
+	w.doh.set(&dohScript{kind: "auto"})
+	p := proxy.Proxy{Addrs: []string{"127.0.0.1:5301"}, Upstream: w.res, Timeout: 1500 * time.Millisecond, MaxInflightRequests: 64}
+	ctx, cancel := context.WithCancel(context.Background())
+	defer cancel()
+	go func() { _ = p.ListenAndServe(ctx) }()
+	time.Sleep(150 * time.Millisecond)
+	bases := []string{"www.example.com", "mail.example.com", "a.b.c.example.org", "router.lan.example", "x.test", "cdn.example.net",
+		"api.service.example", "time.example.com", "w3.example.com", "db.internal.example", "long-label-name-for-testing.example.com", "q.example"}
+	type cq struct {
+		proto string
+		q     []byte
+	}
+	serial := 0
+	mkq := func(id int) []byte {
+		name := bases[r.intn(len(bases))]
+		if r.coin(35) {
+			name = randCase(r, name)
+		}
+		typ := []int{1, 1, 16}[r.intn(3)]
+		return msgSpec{id: id, flags: 0x0100, qs: [][]byte{question(encodeName(name), typ, 1)}}.encode()
+	}
+	emitQ := func(proto string, q []byte, nrep int, rep []byte) {
+		serial++
+		exp := autoAnswer(q)
+		emit("e2e", itoa(serial), proto, hx(q), hx(exp), "=>", itoa(nrep), hxo(rep))
+	}
+	for done := 0; done < n; {
+		nudp, ntcp := r.rng(4, 8), r.rng(1, 2)
+		uq := make([][]byte, nudp)
+		for i := range uq {
+			uq[i] = mkq(r.intn(65536))
+		}
+		tq := make([][][]byte, ntcp)
+		for i := range tq {
+			k := r.rng(2, 4)
+			ids := r.intn(60000)
+			for j := 0; j < k; j++ {
+				tq[i] = append(tq[i], mkq(ids+j))
+			}
+		}
+		ures := make([][][]byte, nudp)
+		tres := make([][]byte, ntcp)
+		var wg sync.WaitGroup
+		for i := range uq {
+			wg.Add(1)
+			go func(i int) {
+				defer wg.Done()
+				ures[i] = udpExchange("127.0.0.1:5301", uq[i], 2500*time.Millisecond, 20*time.Millisecond)
+			}(i)
+		}
+		for i := range tq {
+			wg.Add(1)
+			go func(i int) {
+				defer wg.Done()
+				var raw []byte
+				for _, q := range tq[i] {
+					raw = append(raw, frame(q)...)
+				}
+				tres[i], _ = tcpExchange("127.0.0.1:5301", raw, len(tq[i]), 2500*time.Millisecond, 20*time.Millisecond)
+			}(i)
+		}
+		wg.Wait()
+		for i, q := range uq {
+			var rep []byte
+			if len(ures[i]) > 0 {
+				rep = ures[i][0]
+			}
+			emitQ("udp", q, len(ures[i]), rep)
+			done++
+		}
+		for i, qs := range tq {
+			// frames may come back in any order: match them to the queries by ID
+			frames := map[int][][]byte{}
+			st := tres[i]
+			for len(st) >= 2 {
+				l := int(st[0])<<8 | int(st[1])
+				if len(st) < 2+l {
+					break
+				}
+				if l >= 2 {
+					id := int(st[2])<<8 | int(st[3])
+					frames[id] = append(frames[id], st[:2+l])
+				} else {
+					frames[-1] = append(frames[-1], st[:2+l])
+				}
+				st = st[2+l:]
+			}
+			for _, q := range qs {
+				id := int(q[0])<<8 | int(q[1])
+				var rep []byte
+				if len(frames[id]) > 0 {
+					rep = frames[id][0]
+				}
+				emitQ("tcp", q, len(frames[id]), rep)
+				done++
+			}
+		}
+	}
+	return nil
+}
+
 // ---------- mode fault: upstream fault menu through the real proxy ----------
 func resolverFault(r *rng, n int, certDir string) error {
 	w, err := newRWorld(certDir, false, 0, 0)
@@ -681,7 +824,7 @@ func resolverFault(r *rng, n int, certDir string) error {
 	go func() { _ = p.ListenAndServe(ctx) }()
 	time.Sleep(150 * time.Millisecond)
 	dohKinds := []string{"ok", "status", "empty", "big", "hang_hdr", "hang_mid", "reset_hdr", "reset_mid", "trickle", "trickle_slow", "refuse", "junk"}
-	dnsKinds := []string{"ok", "none", "mismatch_ok", "short_ok", "mismatch_only", "late", "junk", "unreach"}
+	dnsKinds := []string{"ok", "none", "mismatch_ok", "short_ok", "mismatch_only", "late", "junk", "unreach", "stray_late", "stray_trickle"}
 	for i := 0; i < n; i++ {
 		useDNS := r.coin(40)
 		var kind string
@@ -754,6 +897,14 @@ func resolverFault(r *rng, n int, certDir string) error {
 					sc.datagrams = [][]byte{body}
 					sc.delays = []time.Duration{timeout + 200*time.Millisecond}
 					outcome = "err"
+				case "stray_late": // a datagram with another ID well into the wait, then silence
+					sc.datagrams = [][]byte{wrong}
+					sc.delays = []time.Duration{timeout * 7 / 10}
+					outcome = "err"
+				case "stray_trickle": // datagrams with other IDs every half timeout
+					sc.datagrams = [][]byte{wrong, wrong, wrong, wrong, wrong}
+					sc.delays = []time.Duration{timeout / 2, timeout / 2, timeout / 2, timeout / 2, timeout / 2}
+					outcome = "err"
 				case "junk":
 					j := append([]byte{body[0], body[1]}, r.bytes(r.rng(0, 30))...)
 					sc.datagrams = [][]byte{j}
@@ -779,6 +930,9 @@ func resolverFault(r *rng, n int, certDir string) error {
 			// let hung handlers drain before the next exchange
 			if strings.HasPrefix(k, "hang") || k == "trickle_slow" || k == "late" {
 				time.Sleep(250 * time.Millisecond)
+			}
+			if k == "stray_trickle" {
+				time.Sleep(5 * timeout / 2) // let the scripted datagrams run out
 			}
 		}
 	}
